@@ -52,6 +52,8 @@ def run_case(ctx, rep, case, base, model_ok):
             tx0.append_data(tablekit.rows(1, start=61, tag="m2_"))
             tx0.append_data(tablekit.rows(1, start=62, tag="m3_"))
             tx0.commit()
+    for j_ in range(case.get("extra_appends", 0)):      # more manifests in the current snapshot
+        t0.append_records(tablekit.rows(1, start=70 + j_, tag=f"x{j_}_"))
     store = reader.DirStore(path)
     chooser = case["chooser"](rng) if case.get("chooser") else sched.random_chooser(rng, rng.choice([0.0, 0.2, 0.5]))
     S = sched.Sched(chooser, watchdog_s=40)
@@ -138,10 +140,15 @@ def run_case(ctx, rep, case, base, model_ok):
                     except OSError:
                         return "failed"
         actors[a] = wfn
+    shared_h = None
     for ri, apis in enumerate(case["readers"]):
         a = 11 + ri
-        h = tablekit.load(path)
-        vstore.instrument_table(h, S)
+        if case.get("shared_reader_handle") and shared_h is not None:
+            h = shared_h            # several readers (threads) through ONE Table object
+        else:
+            h = tablekit.load(path)
+            vstore.instrument_table(h, S)
+            shared_h = h
         readers[a] = apis
 
         def rfn(h=h, apis=apis, a=a):
@@ -339,6 +346,26 @@ def _reader_after_k(k):
     return mk
 
 
+def _second_reader_after_k(k):
+    """reader 11 passes k of its gated operations, then reader 12 (same Table object) runs a whole read, then 11 goes on"""
+    def mk(rng):
+        streak = {"n": 0}
+
+        def choose(s, ready):
+            n = len([1 for a, _w in s.trace if a == 11])
+            if n < k and 11 in ready:
+                return 11
+            if 1 in ready:              # a whole commit first (if the case has a writer), then the second reader
+                return 1
+            if 12 in ready and streak["n"] < 150:
+                streak["n"] += 1
+                return 12
+            streak["n"] = 0         # 12 waits for something 11 holds (a lock of the shared object): let 11 move
+            return 11 if 11 in ready else sorted(ready)[0]
+        return choose
+    return mk
+
+
 def directed_sweep(ctx, rep, base, model_ok, next_id):
     """every read API × writer kind: a whole commit placed after each of the reader's gated operations in turn"""
     stride = 1 if (ctx.thorough or ctx.intensify) else 2
@@ -369,6 +396,22 @@ def directed_sweep(ctx, rep, base, model_ok, next_id):
                 if k >= c.get("writer_gates", 0):
                     break
                 k += stride
+    # two reads through ONE Table object (threads sharing a handle), 5 manifests: the second whole read after each gated operation of the first
+    for api in (APIS if (ctx.thorough or ctx.intensify) else ["scan", "row_count", "iter_records", "scan_batches"]):
+        k = 0
+        while True:
+            c = {"id": next_id, "start_empty": False, "writers": ["append"] if k % 2 == 0 else ["delete"], "readers": [[api], [api]],
+                 "chooser": _second_reader_after_k(k), "shared_reader_handle": True, "extra_appends": 4}
+            next_id += 1
+            try:
+                run_case(ctx, rep, c, base, model_ok)
+            except sched.Stuck as e:
+                rep.notes.append(f"shared-handle readers {api}/k={k} stuck: {e}")
+                break
+            rep.distribution["directed-shared-handle-readers"] += 1
+            if k >= c.get("reader_gates", 0):
+                break
+            k += stride
     for api in APIS:
         for wk in ("append", "delete", "multi", "dirfsync:hint"):
             k = 0
